@@ -44,6 +44,8 @@ class Num (α : Type) extends Add α, Sub α, Mul α, Div α, Neg α where
   nextDown : α → α
   /-- `usize as Float` -/
   ofUsize : Nat → α
+  /-- `Float::INFINITY` -/
+  inf : α
 
 -- The operator instances of a `Num` must never shadow a type's own arithmetic (ℝ in the proofs).
 attribute [instance 10] Num.toAdd Num.toSub Num.toMul Num.toDiv Num.toNeg
@@ -56,6 +58,9 @@ instance (priority := 10) instOfScientific : OfScientific α := ⟨Num.ofSci⟩
 
 @[inline] def gt (a b : α) : Bool := Num.lt b a
 @[inline] def ge (a b : α) : Bool := Num.le b a
+
+/-- Rust `x.is_nan()` (`x != x`) -/
+@[inline] def isNaN (x : α) : Bool := !(Num.beq x x)
 
 /-- Rust `f64::clamp` -/
 @[inline] def clamp (x lo hi : α) : α :=
